@@ -58,9 +58,13 @@ package mint
 //@   loop range(blindedMessages) invariant 0 <= i && i <= len(blindedMessages) && len(blindedSignatures) == len(blindedMessages) && sum.sig.amount(seq(blindedSignatures), i) == sum.bm.amount(seq(blindedMessages), i) && (forall j :: 0 <= j && j < i ==> blindedSignatures[j].Amount == blindedMessages[j].Amount && blindedSignatures[j].Id == m.activeKeyset.Id && blindedMessages[j].Id == m.activeKeyset.Id && blindedSignatures[j].DLEQ != nil)
 
 //@ func (*Mint).Swap
-//@   tags C01 C02 C06 C15 C12
+//@   tags C01 C02 C06 C15 C12 C07
 //@   safety C06
 //@   requires minv(m)
+// Crash consistency (C07): the clauses below are asserted in the state right
+// before every store call and at every return (= every crash point).
+//@   boundary @safety [C07] (exists i :: 0 <= i && i < len(blindedMessages) && db.sig[blindedMessages[i].B_] && !old(db.sig)[blindedMessages[i].B_]) ==> (forall i :: 0 <= i && i < len(proofs) ==> db.spent[Yof(proofs[i].Secret)])
+//@   boundary @atomic [C07] (exists i :: 0 <= i && i < len(proofs) && db.spent[Yof(proofs[i].Secret)] && !old(db.spent)[Yof(proofs[i].Secret)]) ==> (forall i :: 0 <= i && i < len(blindedMessages) ==> db.sig[blindedMessages[i].B_])
 //@   requires dbinv()
 //@   ensures @dbinv [C01,C05] dbinv()
 //@   loop range(proofs) invariant 0 <= i && i <= len(proofs) && len(Ys) == len(proofs) && proofsAmount == sum.proof.amount(seq(proofs), i) % 18446744073709551616 && (forall j :: 0 <= j && j < i ==> Ys[j] == Yof(proofs[j].Secret))
@@ -88,9 +92,11 @@ package mint
 //@   ensures @transition [C03] db.mqrow[quoteId] == old(db.mqrow)[quoteId] || (old(db.mqrow)[quoteId].State == nut04.Unpaid && db.mqrow[quoteId] == setfield(old(db.mqrow)[quoteId], "State", nut04.Paid))
 
 //@ func (*Mint).MintTokens
-//@   tags C03 C02 C06 C15
+//@   tags C03 C02 C06 C15 C07
 //@   safety C06
 //@   requires minv(m)
+//@   boundary @safety [C07] (exists i :: 0 <= i && i < len(mintTokensRequest.Outputs) && db.sig[mintTokensRequest.Outputs[i].B_] && !old(db.sig)[mintTokensRequest.Outputs[i].B_]) ==> db.mqrow[mintTokensRequest.Quote].State == nut04.Issued
+//@   boundary @atomic [C07] db.mq[mintTokensRequest.Quote] && (db.mqrow[mintTokensRequest.Quote].State == nut04.Pending || (db.mqrow[mintTokensRequest.Quote].State == nut04.Issued && old(db.mqrow)[mintTokensRequest.Quote].State != nut04.Issued)) ==> (forall i :: 0 <= i && i < len(mintTokensRequest.Outputs) ==> db.sig[mintTokensRequest.Outputs[i].B_])
 //@   requires mppinv()
 //@   ensures @mppinv [C02] mppinv()
 //@   loop $1:range(blindedMessages) invariant 0 <= i && i <= len(blindedMessages) && len(B_s) == len(blindedMessages) && (forall j :: 0 <= j && j < i ==> B_s[j] == blindedMessages[j].B_)
@@ -146,9 +152,11 @@ package mint
 //@ macro payfailed() = ln.payerr != nil || ln.pay.PaymentStatus == lightning.Failed
 
 //@ func (*Mint).MeltTokens
-//@   tags C01 C02 C05 C06 C15
+//@   tags C01 C02 C05 C06 C15 C07
 //@   safety C06
 //@   requires minv(m)
+//@   boundary @safety [C07] ln.npay > old(ln.npay) ==> (forall i :: 0 <= i && i < len(meltTokensRequest.Inputs) ==> db.pending[Yof(meltTokensRequest.Inputs[i].Secret)] || db.spent[Yof(meltTokensRequest.Inputs[i].Secret)])
+//@   boundary @atomic [C07] (exists i :: 0 <= i && i < len(meltTokensRequest.Inputs) && db.pending[Yof(meltTokensRequest.Inputs[i].Secret)] && !old(db.pending)[Yof(meltTokensRequest.Inputs[i].Secret)]) ==> db.meltrow[meltTokensRequest.Quote].State == nut05.Pending
 //@   requires mppinv()
 //@   ensures @mppinv [C02] mppinv()
 //@   requires dbinv()
@@ -316,6 +324,8 @@ package mint
 //@   safety C06 C09
 //@   requires minv(m)
 //@   requires kinv(m)
+//@   requires db.ks[m.activeKeyset.Id] && db.ksrow[m.activeKeyset.Id].Active
+//@   boundary @activerow [C07,C09] exists id Str :: db.ks[id] && db.ksrow[id].Active
 //@   calls (storage.MintDB).UpdateKeysetActive asserts @deactivateold [C09,C07] keysetId == old(m.activeKeyset.Id) && !active
 //@   calls (storage.MintDB).SaveKeyset asserts @newrow [C09,C07] ks.Active && ks.InputFeePpk == fee && ks.DerivationPathIdx == (old(m.activeKeyset.DerivationPathIdx) + 1) % 4294967296 && ks.Id == m.activeKeyset.Id && ks.Unit == "sat" && ks.Seed == hexenc(db.seed)
 //@   ensures @kinv [C09] err == nil && !(old(m.keysets[m.activeKeyset.Id].Id) == m.activeKeyset.Id) ==> kinv(m)
